@@ -212,7 +212,7 @@ func r131Ownership(c *an.Ctx) {
 					continue
 				}
 				fv := an.FieldOf(info, ix.X)
-				if fv == nil || fv.Name() != "ats" {
+				if fv == nil || an.CanonFieldName(fv) != "ats" {
 					continue
 				}
 				stores++
@@ -374,49 +374,54 @@ func r132Kinds(c *an.Ctx) {
 func r133Memo(c *an.Ctx) {
 	const rule = "R13.3"
 	if f := c.MustFunc(rule, "expr", "dupper.DupType"); f != nil {
-		info := f.Pkg.TypesInfo
-		g := an.NewCFG(info, f.Decl.Body)
-		// store d.uts[...] = dp
-		stores := g.Find(func(n ast.Node) bool {
-			as, ok := n.(*ast.AssignStmt)
-			if !ok {
-				return false
-			}
-			for _, l := range as.Lhs {
-				if ix, ok := an.Unparen(l).(*ast.IndexExpr); ok {
-					if fv := an.FieldOf(info, ix.X); fv != nil && fv.Name() == "uts" {
-						return true
+		nStores, nRecs, ok := 0, 0, true
+		for _, hf := range c.WithNewHelpers(f) { // DupType and the helpers extracted from it
+			info := hf.Pkg.TypesInfo
+			g := an.NewCFG(info, hf.Decl.Body)
+			// store d.uts[...] = dp
+			stores := g.Find(func(n ast.Node) bool {
+				as, ok := n.(*ast.AssignStmt)
+				if !ok {
+					return false
+				}
+				for _, l := range as.Lhs {
+					if ix, ok := an.Unparen(l).(*ast.IndexExpr); ok {
+						if fv := an.FieldOf(info, ix.X); fv != nil && an.CanonFieldName(fv) == "uts" {
+							return true
+						}
 					}
 				}
-			}
-			return false
-		})
-		// recursion on the user type's attribute: DupAttribute(actual.Attribute())
-		recs, _ := g.FindCalls(func(call *ast.CallExpr) bool {
-			if an.CalleeName(info, call) != "(*"+an.P("expr")+".dupper).DupAttribute" || len(call.Args) != 1 {
 				return false
-			}
-			inner, ok := an.Unparen(call.Args[0]).(*ast.CallExpr)
-			if !ok {
-				return false
-			}
-			sel, ok := an.Unparen(inner.Fun).(*ast.SelectorExpr)
-			return ok && sel.Sel.Name == "Attribute"
-		})
-		ok := len(stores) > 0 && len(recs) > 0
-		for _, r := range recs {
-			dominated := false
-			for _, s := range stores {
-				if g.LocDominates(s, r) {
-					dominated = true
+			})
+			// recursion on the user type's attribute: DupAttribute(actual.Attribute())
+			recs, _ := g.FindCalls(func(call *ast.CallExpr) bool {
+				if an.CalleeName(info, call) != "(*"+an.P("expr")+".dupper).DupAttribute" || len(call.Args) != 1 {
+					return false
+				}
+				inner, ok := an.Unparen(call.Args[0]).(*ast.CallExpr)
+				if !ok {
+					return false
+				}
+				sel, ok := an.Unparen(inner.Fun).(*ast.SelectorExpr)
+				return ok && sel.Sel.Name == "Attribute"
+			})
+			nStores += len(stores)
+			nRecs += len(recs)
+			for _, r := range recs {
+				dominated := false
+				for _, s := range stores {
+					if g.LocDominates(s, r) {
+						dominated = true
+					}
+				}
+				if !dominated {
+					ok = false
 				}
 			}
-			if !dominated {
-				ok = false
-			}
 		}
+		ok = ok && nStores > 0 && nRecs > 0
 		c.Check(ok, rule, f.Name+"#user-type-memo", f.Decl.Pos(), "the copy of a user type is registered in the memo before its attribute is copied (recursive types terminate and stay shared)",
-			fmt.Sprintf("the user-type memo store does not dominate the recursive DupAttribute(actual.Attribute()) call (stores=%d recursions=%d)", len(stores), len(recs)))
+			fmt.Sprintf("the user-type memo store does not dominate the recursive DupAttribute(actual.Attribute()) call (stores=%d recursions=%d)", nStores, nRecs))
 	}
 	if f := c.MustFunc(rule, "expr", "hashObject"); f != nil {
 		info := f.Pkg.TypesInfo
